@@ -305,6 +305,7 @@ class Policy:
     inline_properties = True
     inline_ctors = True
     fork_uncaught = False  # fork raise outcomes even when no enclosing handler exists
+    load_raises = ("KeyError",)  # what a subscript load may raise
 
     def inline(self, fi: FuncInfo, depth: int, ev: Event) -> bool:
         return depth < self.max_depth
@@ -312,7 +313,7 @@ class Policy:
     def may_raise(self, ev: Event, eng: "Engine") -> t.List[str]:
         """exceptions a *non-inlined* raise point may raise"""
         if ev.kind == "load":
-            return ["KeyError"]
+            return list(self.load_raises)
         if ev.kind == "await":
             return ["asyncio.CancelledError"] if self.cancel_at_await else []
         if ev.kind == "call":
@@ -1612,6 +1613,13 @@ class Engine:
             nm = node.func.value.id
             if s.env.get(nm) == f[1]:
                 s.env[nm] = ("list", f[1][1] + (args[0],))
+        # tracked local byte buffer:  buf = bytearray(..); buf.append(x) / buf.extend(y)
+        if f[0] == "attr" and f[2] in ("append", "extend") and len(args) == 1 and isinstance(node, ast.Call) \
+                and isinstance(node.func, ast.Attribute) and isinstance(node.func.value, ast.Name) and _is_bytebuf(f[1]):
+            nm = node.func.value.id
+            if s.env.get(nm) == f[1]:
+                add = ("call", ("ext", "bytes"), (("list", (args[0],)),), (), site) if f[2] == "append" else args[0]
+                s.env[nm] = ("binop", "+", f[1], add)
         # closures -------------------------------------------------------------
         if f[0] == "closure":
             return self._call_closure(f, args, kwargs, e, node, s, fi, depth, ch)
@@ -1842,6 +1850,12 @@ class Engine:
     def closure_target(self, cb):
         """('closure', qual, id) -> (FuncInfo | ('lambda', node, fi), env)"""
         return self._closures.get(cb[2])
+
+
+def _is_bytebuf(tm) -> bool:
+    while tm[0] == "binop" and tm[1] == "+":
+        tm = tm[2]
+    return tm[0] == "call" and tm[1] == ("ext", "bytearray")
 
 
 BUILTIN_NAMES = {
